@@ -93,56 +93,63 @@ def run(prop, tier):
         build = Build()
         extra = ['-DVERIF_OVNI_C="%s"' % os.path.join(REPO, "src/rt/ovni.c")]
         exe = build.harness("plain", "sched_driver", ["sched_driver.c"], extra=extra, link_extra=["-ldl"])
-        bound = 2 if tier == "quick" else 3
-        configs = [("a", "d"), ("b", "d"), ("b", "t"), ("c", "d"), ("c", "t"), ("d", "d")]
-        if tier != "quick":
-            configs += [("a", "t"), ("d", "t")]
-        for (sc, mode) in configs:
-            if ctx.out_of_time(0.8):
-                ctx.cap("scenario %s/%s not started" % (sc, mode))
-                continue
-            # root execution and first-level split
-            srv0 = Server(exe, scratch.sub("srv0"))
-            pts, verdict, outcome = srv0.run(sc, mode, [])
-            srv0.close()
-            if verdict != "ok":
-                ctx.violation("scenario %s (%s) mode %s, default schedule: %s" % (sc, SCEN[sc], mode, verdict),
-                              {"engine": "E2 sched_driver", "scenario": sc, "mode": mode, "schedule": []}, {"kind": "schedule", "scenario": sc})
-                continue
-            roots = []
-            for i, (n, re_, ch) in enumerate(pts):
-                if (1 if re_ else 0) > bound:
+        bounds = [2] if tier == "quick" else [2, 3]
+        completed_bound = 0
+        for bound in bounds:
+            caps_before = len(ctx.cov["caps_hit"])
+            configs = [("a", "d"), ("b", "d"), ("b", "t"), ("c", "d"), ("c", "t"), ("d", "d")]
+            if tier != "quick":
+                configs += [("a", "t"), ("d", "t")]
+            for (sc, mode) in configs:
+                if ctx.out_of_time(0.8):
+                    ctx.cap("scenario %s/%s not started" % (sc, mode))
                     continue
-                for alt in range(1, n):
-                    roots.append([0] * i + [alt])
-            per_budget = (4000 if tier == "quick" else 40000)
-            t_end = ctx.t0 + ctx.deadline_s * 0.75
+                # root execution and first-level split
+                srv0 = Server(exe, scratch.sub("srv0"))
+                pts, verdict, outcome = srv0.run(sc, mode, [])
+                srv0.close()
+                if verdict != "ok":
+                    ctx.violation("scenario %s (%s) mode %s, default schedule: %s" % (sc, SCEN[sc], mode, verdict),
+                                  {"engine": "E2 sched_driver", "scenario": sc, "mode": mode, "schedule": []}, {"kind": "schedule", "scenario": sc})
+                    continue
+                roots = []
+                for i, (n, re_, ch) in enumerate(pts):
+                    if (1 if re_ else 0) > bound:
+                        continue
+                    for alt in range(1, n):
+                        roots.append([0] * i + [alt])
+                per_budget = (4000 if tier == "quick" else 40000)
+                t_end = ctx.t0 + ctx.deadline_s * 0.75
 
-            def work(root):
-                srv = Server(exe, os.path.join(scratch.dir, "w%d" % os.getpid()))
-                try:
-                    return explore_subtree(srv, sc, mode, root, bound, per_budget, t_end)
-                finally:
-                    srv.close()
-            total = 1
-            outcomes = {outcome}
-            maxp = len(pts)
-            anycap = False
-            for root, (nexec, viol, oc, mp, capped) in zip(roots, pmap(work, roots)):
-                total += nexec
-                outcomes |= oc
-                maxp = max(maxp, mp)
-                anycap = anycap or capped
-                for (prefix, verdict, outcome) in viol:
-                    ctx.violation("scenario %s (%s) mode %s: %s [schedule %s]" % (sc, SCEN[sc], mode, verdict, prefix),
-                                  {"engine": "E2 sched_driver", "scenario": sc, "mode": mode, "schedule": prefix, "outcome": outcome},
-                                  {"kind": "schedule", "scenario": sc})
-            if anycap:
-                ctx.cap("scenario %s/%s: per-subtree budget of %d executions or the deadline reached; bound %d is complete for the scenarios listed before it" % (sc, mode, per_budget, bound))
-            ctx.add(evaluations=total, transitions=total, states=total)
-            ctx.part("sched-%s-%s" % (sc, mode), what=SCEN[sc], schedules=total, preemption_bound=bound, max_points=maxp,
-                     distinct_outcomes=sorted(outcomes))
-            ctx.sample({"scenario": sc, "mode": mode, "schedule": roots[len(roots) // 2] if roots else []})
+                def work(root):
+                    srv = Server(exe, os.path.join(scratch.dir, "w%d" % os.getpid()))
+                    try:
+                        return explore_subtree(srv, sc, mode, root, bound, per_budget, t_end)
+                    finally:
+                        srv.close()
+                total = 1
+                outcomes = {outcome}
+                maxp = len(pts)
+                anycap = False
+                for root, (nexec, viol, oc, mp, capped) in zip(roots, pmap(work, roots)):
+                    total += nexec
+                    outcomes |= oc
+                    maxp = max(maxp, mp)
+                    anycap = anycap or capped
+                    for (prefix, verdict, outcome) in viol:
+                        ctx.violation("scenario %s (%s) mode %s: %s [schedule %s]" % (sc, SCEN[sc], mode, verdict, prefix),
+                                      {"engine": "E2 sched_driver", "scenario": sc, "mode": mode, "schedule": prefix, "outcome": outcome},
+                                      {"kind": "schedule", "scenario": sc})
+                if anycap:
+                    ctx.cap("scenario %s/%s: per-subtree budget of %d executions or the deadline reached; bound %d is complete for the scenarios listed before it" % (sc, mode, per_budget, bound))
+                ctx.add(evaluations=total, transitions=total, states=total)
+                ctx.part("sched-%s-%s-b%d" % (sc, mode, bound), what=SCEN[sc], schedules=total, preemption_bound=bound, max_points=maxp,
+                         distinct_outcomes=sorted(outcomes))
+                ctx.sample({"scenario": sc, "mode": mode, "schedule": roots[len(roots) // 2] if roots else []})
+
+            if len(ctx.cov["caps_hit"]) == caps_before and not ctx.nviol:
+                completed_bound = bound
+        ctx.cov["preemption_bound_completed"] = completed_bound
         # ---- free-running ThreadSanitizer pass of the same bodies (supporting evidence for the choice of scheduling points)
         try:
             texe = build.harness("tsan", "sched_driver_tsan", ["sched_driver.c"], extra=extra + ["-DVERIF_NOSCHED"], link_extra=["-ldl"])
@@ -170,10 +177,10 @@ def run(prop, tier):
         except InfraError as e:
             ctx.part("tsan", skipped=str(e)[:200])
         ctx.cov["traces_validated_against_impl"] = ctx.cov["evaluations"]
-        ctx.cov["rule"] = ("every schedule with at most %d preemptions of the scenarios a-d (direct and OVNI_TMPDIR mode) on the real libovni; scheduling points "
+        ctx.cov["rule"] = ("every schedule with at most %d preemptions of the scenarios a-d (direct and OVNI_TMPDIR mode) on the real libovni (thorough: bound 2 completely first, then bound 3 as far as the deadline allows); scheduling points "
                            "at every atomic operation and every mkdir/open/fopen/remove/rmdir/opendir plus the API entries; each execution in a fresh process "
                            "with its own trace directory; oracle: exactly one proc_init/proc_fini returns, losers are refused, an admitted thread's stream.obs "
-                           "and stream.json are byte-identical to what the same script writes when it runs alone; failures are replayed twice" % bound)
+                           "and stream.json are byte-identical to what the same script writes when it runs alone; failures are replayed twice" % bounds[-1])
         ctx.cov["distinct_nontrivial"] = ctx.cov["states"]
         ctx.assumptions += ["sequentially consistent atomics (the library uses seq_cst only)", "unsynchronised accesses between scheduling points are "
                             "the ThreadSanitizer pass's job (separate, free-running)", "2-3 threads, one full thread life each"]
